@@ -524,6 +524,18 @@ func c13Run(c *mc.Ctx) {
 		c13One(c, []ref.Field{{ID: 1, V: ref.Value{T: ref.LIST, Elem: et, L: l}}, {ID: 2, V: ref.Value{T: ref.SET, Elem: et, L: l}}}, "members of different encoded sizes")
 		c13One(c, []ref.Field{{ID: 3, V: ref.Value{T: ref.MAP, Key: ref.I16, Elem: et, L: []ref.Value{gen.Small(ref.I16, 0), l[0], gen.Small(ref.I16, 1), l[3]}}}}, "map values of different encoded sizes")
 	}
+	// different strings of equal length that collide under widely used 32-bit hashes, next to each other in one buffer
+	// (an interning table or cache that compares too little on a hit confuses them)
+	for pi, pr := range gen.CollisionPairs() {
+		if !c.Mine() {
+			continue
+		}
+		a, b := strV(pr[0]), strV(pr[1])
+		c.Distinct("collide", pi)
+		c13One(c, []ref.Field{{ID: 1, V: a}, {ID: 2, V: b}, {ID: 3, V: a}}, "strings colliding under a common hash, as fields")
+		c13One(c, []ref.Field{{ID: 1, V: ref.Value{T: ref.LIST, Elem: ref.STRING, L: []ref.Value{a, b, b, a}}}, {ID: 2, V: ref.Value{T: ref.SET, Elem: ref.STRING, L: []ref.Value{b, a}}}}, "strings colliding under a common hash, in a list and a set")
+		c13One(c, []ref.Field{{ID: 1, V: ref.Value{T: ref.MAP, Key: ref.STRING, Elem: ref.STRING, L: []ref.Value{a, b, b, a}}}, {ID: 2, V: ref.Value{T: ref.STRUCT, F: []ref.Field{{ID: 1, V: b}, {ID: 2, V: a}}}}}, "strings colliding under a common hash, as map keys/values and in a nested struct")
+	}
 	// element counts around 2^15 (lists/sets) and 2^14 (maps: two slots per entry)
 	for _, n := range []int{32767, 32768, 32769, 40000, 65536} {
 		if !c.Mine() {
